@@ -450,6 +450,7 @@ type Config struct {
 	FailFile   string
 	Verbose    bool
 	Name       string
+	Short      bool // -short: a fifth of the checks (and of the state-machine steps)
 }
 
 func (c Config) String() string {
@@ -485,6 +486,7 @@ func setFlags(cfg Config) {
 	must(flag.Set("rapid.nofailfile", fmt.Sprint(cfg.NoFailFile)))
 	must(flag.Set("rapid.failfile", cfg.FailFile))
 	must(flag.Set("rapid.v", fmt.Sprint(cfg.Verbose)))
+	must(flag.Set("test.short", fmt.Sprint(cfg.Short)))
 	if cfg.ShrinkMS < 0 {
 		must(flag.Set("rapid.shrinktime", "1h"))
 	} else {
@@ -495,6 +497,7 @@ func setFlags(cfg Config) {
 // RunCheck runs rapid.Check(fakeTB, prop) for the program under the environment.
 // The virtual clock advances 1 ms per property invocation and is otherwise frozen.
 func RunCheck(p *LazyProgram, env *Env, cfg Config) *RunLog {
+	defer flag.Set("test.short", "false")
 	setFlags(cfg)
 	name := cfg.Name
 	if name == "" {
@@ -542,7 +545,7 @@ func CleanFailFiles() { os.RemoveAll("testdata") }
 
 var (
 	reAfter   = regexp.MustCompile(`\[rapid\] (failed|panic) after (\d+) tests?: `)
-	reSeed    = regexp.MustCompile(`-rapid\.seed=(\d+)`)
+	reSeed    = regexp.MustCompile(`-rapid\.seed=([-+0-9A-Za-z_.]*)`) // whatever is printed there must be what the flag accepts
 	reFF      = regexp.MustCompile(`-rapid\.failfile="([^"]*)"`)
 	reOK      = regexp.MustCompile(`\[rapid\] OK, passed (\d+) tests`)
 	reOnly    = regexp.MustCompile(`\[rapid\] only generated (\d+) valid tests from (\d+) total`)
